@@ -132,6 +132,11 @@ class R:
             return x.as_R()
         if isinstance(x, (bool, int, float, Fraction, np.integer, np.floating, np.bool_)):
             return R(q=_frac_of(x))
+        if isinstance(x, str):
+            try:
+                return R(q=Fraction(x))
+            except ValueError:
+                return None
         return None
 
     @property
